@@ -244,7 +244,7 @@ def d1_layout(ctx, fits, rule='C07-D1', rule2='C07-D2', rule5='C07-D5'):
     if c is not None:
         c_ = _sub14(c, subst)
         ctx.check(rule5, 'fits.py:least_squares#carrier-index', unparse(c_) == 'fitp[%s]' % iv, 'carrier value is fitp[i] for the same i as the gradient row', 'carrier value %s vs gradient row %s' % (unparse(c), iv), fits.loc(dc))
-    okr = loop is not None and (unparse(loop.iter) == 'range(n_parms)' or zipped)
+    okr = loop is not None and (unparse(loop.iter) in ('range(n_parms)', 'range(len(deriv_y))', 'range(len(fitp))') or zipped)      # deriv_y has one row per parameter
     ctx.check(rule, 'fits.py:least_squares#all-parameters', okr, 'one result per parameter', 'result loop runs over %s' % (unparse(loop.iter) if loop is not None else None))
 
 
